@@ -188,7 +188,7 @@ def lean_phase(spec, facts, tier):
         audit_src = "import %s\n" % props_mod + "".join("#print axioms %s\n" % n for n, _ in thms)
         audit_file = os.path.join(LEAN, "SdnsVerif/Audit/%s.lean" % pid)
         write_if_changed(audit_file, audit_src)
-        cmd = ["lake", "build", props_mod, "sdnsmodel"]
+        cmd = ["lake", "build", props_mod, "model_" + pid.lower()]
         res["checker_cmd"] = "cd /verif/lean && " + " ".join(cmd) + " && lake env lean SdnsVerif/Audit/%s.lean" % pid
         rc, so, se, dt = run(cmd, cwd=LEAN, timeout=3000)
         build_log = so + se
@@ -265,8 +265,11 @@ def parse_lines(text):
     return rows
 
 
+MODEL_EXE = [None]
+
+
 def model_run(ops):
-    exe = os.path.join(LEAN, ".lake/build/bin/sdnsmodel")
+    exe = os.path.join(LEAN, ".lake/build/bin", MODEL_EXE[0])
     rc, so, se, dt = run([exe], stdin="\n".join(ops) + "\n", timeout=1800)
     outs = so.split("\n")
     if outs and outs[-1] == "":
@@ -375,6 +378,7 @@ def corpus_ops(pid):
 def check_property(pid, tier, seed, replay_file=None):
     t0 = time.time()
     spec = load_spec(pid)
+    MODEL_EXE[0] = "model_" + pid.lower()
     tcfg = spec.get(tier, spec.get("quick", {}))
     os.makedirs(os.path.join(BUILD, "replay"), exist_ok=True)
     out_lines = []
@@ -612,7 +616,7 @@ def setup():
                 write_if_changed(os.path.join(LEAN, "SdnsVerif/Gen/%s.lean" % pid), gen_facts_lean(pid, json.loads(so)))
     with Lock("lake"):
         mods = [load_spec(p)["lean_props"] for p in all_props()]
-        rc, so, se, dt = run(["lake", "build", "sdnsmodel"] + mods, cwd=LEAN, timeout=7200)
+        rc, so, se, dt = run(["lake", "build"] + ["model_" + p.lower() for p in all_props()] + mods, cwd=LEAN, timeout=7200)
         log("[setup] lake build rc=%d (%.1fs)\n%s" % (rc, dt, (so + se)[-3000:] if rc else ""))
         rc_all |= 1 if rc else 0
     log("[setup] done in %.1fs" % (time.time() - t0))
